@@ -20,6 +20,22 @@ impl Actor for Dummy {
     }
 }
 
+/// the message type of a reference derived from a (wrongly typed) `ActorRef<String>`
+struct WrongDerived(String);
+impl From<WrongDerived> for String {
+    fn from(w: WrongDerived) -> String {
+        w.0
+    }
+}
+impl TryFrom<String> for WrongDerived {
+    type Error = ();
+    fn try_from(s: String) -> Result<Self, ()> {
+        Ok(WrongDerived(s))
+    }
+}
+#[cfg(feature = "alt")]
+impl ractor::Message for WrongDerived {}
+
 #[derive(Clone, Copy, Debug, PartialEq, Eq)]
 enum Closer {
     None,
@@ -223,6 +239,14 @@ fn live_body_x(senders: usize, per: usize, closer: Closer, self_send: bool, wron
                     let r = ractor::rpc::call(&cell, |_reply: ractor::RpcReplyPort<u32>| "not a PMsg".to_string(), Some(std::time::Duration::from_millis(5))).await;
                     ok &= matches!(r, Err(MessagingErr::InvalidActorType));
                     let h = typed.send_after(std::time::Duration::from_millis(1), || "not a PMsg".to_string());
+                    ok &= matches!(h.await, Ok(Err(MessagingErr::InvalidActorType)));
+                    // ... and through a reference derived from the wrongly typed one
+                    let derived = typed.get_derived::<WrongDerived>();
+                    ok &= matches!(derived.send_message(WrongDerived("not a PMsg".into())), Err(MessagingErr::InvalidActorType));
+                    ok &= matches!(derived.cast(WrongDerived("not a PMsg".into())), Err(MessagingErr::InvalidActorType));
+                    let r = derived.call(|_reply: ractor::RpcReplyPort<u32>| WrongDerived("not a PMsg".into()), Some(std::time::Duration::from_millis(5))).await;
+                    ok &= matches!(r, Err(MessagingErr::InvalidActorType));
+                    let h = derived.send_after(std::time::Duration::from_millis(1), || WrongDerived("not a PMsg".into()));
                     ok &= matches!(h.await, Ok(Err(MessagingErr::InvalidActorType)));
                     ok
                 }));
